@@ -23,7 +23,8 @@ What is proved, about the model in `Model/Peers.lean` (which transcribes `pubsub
 * membership — for **every** event list a node can experience (any interleaving and reordering of
   deliveries and `GetPeers` calls, monotone clock, each delivery at most `d` late):
   `presence_by_history`, `stale_expires`, `live_persists`, `self_persists`, `converges`
-  (+ `converges_list` for the literal `GetPeers` result), for **any address** of the live nodes
+  (+ `converges_list` for the literal `GetPeers` result, `callback_view_converges` for what a
+  registered change callback — the sharder's reload — saw last), for **any address** of the live nodes
   (`live_persists_any_address`), ids comma-free.  The constants are those of the code
   (`Gen/Peers.lean`), the side condition `refresh + jitter + d < TTL` is discharged on them.
 -/
@@ -250,8 +251,52 @@ theorem converges (ttl d G : Int) (P : Pubs) (live : List Node) (self : Node) (s
       simpa using this
     exact stale_expires_net ttl d P self startT evs t T0 k hT hF (hdead k hne) (fun _ => hstart) hd ht
 
-/-- **converges**, as the value `GetPeers` returns: the live nodes' addresses in id order (the
-node's own address if nobody is live — `GetPeers` never returns an empty list). -/
+/-- the listed ids, in order, are the live ids in order -/
+theorem converges_keys (ttl d G : Int) (P : Pubs) (live : List Node) (self : Node) (startT : Int)
+    (evs : List Ev) (t T0 : Int)
+    (hT : Timed d startT evs t) (hF : Fair P d startT evs t) (hstart : startT ≤ T0)
+    (hlive : ∀ n ∈ live, comma ∉ n.id ∧ PublishesEvery P n T0 G ∧ OnlyOwn P n)
+    (hdead : ∀ k, (∀ n ∈ live, n.id ≠ k) → Silent P k T0)
+    (hnd : (live.map (·.id)).Nodup)
+    (hside : G + d < ttl) (hd : 0 ≤ d)
+    (ht : T0 + d + ttl < t) :
+    sortedKeys (stateAt ttl self startT evs t) = ksort (live.map (·.id)) := by
+  have hconv := converges ttl d G P live self startT evs t T0 hT hF hstart hlive hdead hside hd ht
+  have hinv := (inv_run (ttl := ttl) (self := self) hT).1
+  have hn : AList.NoDupKeys (stateAt ttl self startT evs t).items := hinv.1
+  unfold sortedKeys
+  apply ksort_eq_of_same_members
+  · have := AList.nodup_keep (stateAt ttl self startT evs t).items hn
+      (fun _ ve => !expired (stateAt ttl self startT evs t).now ve.2)
+    simpa [AList.NoDupKeys, cleanup] using this
+  · exact hnd
+  · intro k
+    have h1 := mem_sortedKeys (stateAt ttl self startT evs t) hn k
+    unfold sortedKeys at h1
+    rw [mem_ksort] at h1
+    rw [h1, hconv k]
+    unfold liveAddr
+    cases hf : live.find? (fun n => n.id = k) with
+    | some n =>
+      have hn' : n ∈ live := List.mem_of_find?_eq_some hf
+      have hk : n.id = k := by simpa using List.find?_some hf
+      simp only [Option.map_some, Option.isSome_some, true_iff]
+      exact List.mem_map.mpr ⟨n, hn', hk⟩
+    | none =>
+      simp only [Option.map_none, Option.isSome_none, Bool.false_eq_true, false_iff]
+      intro hmem
+      obtain ⟨n, hn', hk⟩ := List.mem_map.mp hmem
+      have := List.find?_eq_none.mp hf n hn'
+      simp [hk] at this
+
+/-- the value `GetPeers` returns once the list is the live set: the live nodes' addresses in id
+order (the node's own address if nobody is live — `GetPeers` never returns an empty list) -/
+def liveList (live : List Node) (self : Node) : List Bytes :=
+  match (ksort (live.map (·.id))).filterMap (liveAddr live) with
+  | [] => [self.addr]
+  | vs => vs
+
+/-- **converges**, as the value `GetPeers` returns. -/
 theorem converges_list (ttl d G : Int) (P : Pubs) (live : List Node) (self : Node) (startT : Int)
     (evs : List Ev) (t T0 : Int)
     (hT : Timed d startT evs t) (hF : Fair P d startT evs t) (hstart : startT ≤ T0)
@@ -260,43 +305,173 @@ theorem converges_list (ttl d G : Int) (P : Pubs) (live : List Node) (self : Nod
     (hnd : (live.map (·.id)).Nodup)
     (hside : G + d < ttl) (hd : 0 ≤ d)
     (ht : T0 + d + ttl < t) :
-    peersAt ttl self startT evs t =
-      match (ksort (live.map (·.id))).filterMap (liveAddr live) with
-      | [] => [self.addr]
-      | vs => vs := by
+    peersAt ttl self startT evs t = liveList live self := by
   have hconv := converges ttl d G P live self startT evs t T0 hT hF hstart hlive hdead hside hd ht
-  have hinv := (inv_run (ttl := ttl) (self := self) hT).1
-  have hn : AList.NoDupKeys (stateAt ttl self startT evs t).items := hinv.1
-  have hkeys : sortedKeys (stateAt ttl self startT evs t) = ksort (live.map (·.id)) := by
-    unfold sortedKeys
-    apply ksort_eq_of_same_members
-    · have := AList.nodup_keep (stateAt ttl self startT evs t).items hn
-        (fun _ ve => !expired (stateAt ttl self startT evs t).now ve.2)
-      simpa [AList.NoDupKeys, cleanup] using this
-    · exact hnd
-    · intro k
-      have h1 := mem_sortedKeys (stateAt ttl self startT evs t) hn k
-      unfold sortedKeys at h1
-      rw [mem_ksort] at h1
-      rw [h1, hconv k]
-      unfold liveAddr
-      cases hf : live.find? (fun n => n.id = k) with
-      | some n =>
-        have hn' : n ∈ live := List.mem_of_find?_eq_some hf
-        have hk : n.id = k := by simpa using List.find?_some hf
-        simp only [Option.map_some, Option.isSome_some, true_iff]
-        exact List.mem_map.mpr ⟨n, hn', hk⟩
-      | none =>
-        simp only [Option.map_none, Option.isSome_none, Bool.false_eq_true, false_iff]
-        intro hmem
-        obtain ⟨n, hn', hk⟩ := List.mem_map.mp hmem
-        have := List.find?_eq_none.mp hf n hn'
-        simp [hk] at this
-  unfold peersAt getPeers
+  have hkeys := converges_keys ttl d G P live self startT evs t T0 hT hF hstart hlive hdead hnd hside hd ht
+  have hn : AList.NoDupKeys (stateAt ttl self startT evs t).items :=
+    (inv_run (ttl := ttl) (self := self) hT).1.1
+  unfold peersAt getPeers liveList
   rw [sortedValues_eq _ hn, hkeys]
   have : (fun k => lookup (stateAt ttl self startT evs t) k) = liveAddr live := funext hconv
   rw [this]
   rfl
+
+/-! ### what the change-notification callback sees -/
+
+/-- a state whose listed ids are the live ids and whose entries for live ids carry the live
+addresses is one in which `GetPeers` returns the live list -/
+theorem getPeers_of_keys (live : List Node) (self : Node) (s0 : St)
+    (hg : GoodItems live s0.items) (hn : AList.NoDupKeys s0.items)
+    (hk : sortedKeys s0 = ksort (live.map (·.id))) : getPeers self s0 = liveList live self := by
+  unfold getPeers liveList
+  rw [sortedValues_eq _ hn, hk]
+  have : (ksort (live.map (·.id))).filterMap (fun k => lookup s0 k) =
+      (ksort (live.map (·.id))).filterMap (liveAddr live) := by
+    apply filterMap_congr'
+    intro k hkm
+    have hks : k ∈ sortedKeys s0 := by rw [hk]; exact hkm
+    have hsome := (mem_sortedKeys s0 hn k).mp hks
+    rw [mem_ksort] at hkm
+    obtain ⟨n, hnl, hnk⟩ := List.mem_map.mp hkm
+    -- the first live node with this id
+    unfold liveAddr
+    cases hf : live.find? (fun n => n.id = k) with
+    | none =>
+      have := List.find?_eq_none.mp hf n hnl
+      simp [hnk] at this
+    | some n' =>
+      have hn' : n' ∈ live := List.mem_of_find?_eq_some hf
+      have hk' : n'.id = k := by simpa using List.find?_some hf
+      simp only [Option.map_some]
+      unfold lookup at hsome ⊢
+      cases hget : AList.get s0.items k with
+      | none => simp [hget] at hsome
+      | some ve =>
+        obtain ⟨a, e⟩ := ve
+        simp only [hget] at hsome ⊢
+        have ha : a = n'.addr := hg k a e (AList.mem_of_get hget) n' hn' hk'
+        by_cases hx : expired s0.now e = true
+        · simp [hx] at hsome
+        · simp [hx, ha]
+  rw [this]
+  rfl
+
+/-- once a node has handled a message after `T0 + d + ttl`, the hash it stores is that of the live
+id list (it is recomputed at every handled message, and only there) -/
+theorem lastKeys_converged (ttl d G : Int) (P : Pubs) (live : List Node) (self : Node) (startT T0 : Int)
+    (hstart : startT ≤ T0)
+    (hlive : ∀ n ∈ live, comma ∉ n.id ∧ PublishesEvery P n T0 G ∧ OnlyOwn P n)
+    (hdead : ∀ k, (∀ n ∈ live, n.id ≠ k) → Silent P k T0)
+    (hnd : (live.map (·.id)).Nodup) (hside : G + d < ttl) (hd : 0 ≤ d) :
+    ∀ (r : List Ev) (t : Int), Timed d startT r.reverse t → Fair P d startT r.reverse t →
+      (∃ e ∈ r, e.handled = true ∧ T0 + d + ttl < e.time) →
+      (runEvsN ttl self startT r.reverse).lastKeys = some (ksort (live.map (·.id))) := by
+  intro r
+  induction r with
+  | nil => intro t _ _ h; simp at h
+  | cons x r ih =>
+    intro t hT hF hex
+    rw [List.reverse_cons] at hT hF ⊢
+    have hpre := timed_prefix r.reverse x [] startT t hT
+    have hTx : Timed d startT (r.reverse ++ [x]) x.time := hpre.1
+    have hFx : Fair P d startT (r.reverse ++ [x]) x.time := fair_prefix r.reverse x [] t hT hF
+    have hrun : runEvsN ttl self startT (r.reverse ++ [x]) =
+        stepEvN ttl self (runEvsN ttl self startT r.reverse) x := by
+      simp [runEvsN, List.foldl_append]
+    cases hh : x.handled with
+    | true =>
+      -- the stored hash is recomputed now, from a state that has converged
+      have hbound : T0 + d + ttl < x.time := by
+        obtain ⟨e, he, _, het⟩ := hex
+        rcases List.mem_cons.mp he with rfl | he'
+        · exact het
+        · have := (timed_mem _ startT x.time hTx).2 e (by simp [he'])
+          omega
+      rw [hrun, stepEvN_lastKeys_handled ttl self _ x hh, ← hrun, runEvsN_st]
+      have hkeys := converges_keys ttl d G P live self startT (r.reverse ++ [x]) x.time T0 hTx hFx hstart
+        hlive hdead hnd hside hd hbound
+      have hnow : (runEvs ttl self startT (r.reverse ++ [x])).now = x.time := by
+        simp [runEvs, List.foldl_append, stepEv_now]
+      have : stateAt ttl self startT (r.reverse ++ [x]) x.time = runEvs ttl self startT (r.reverse ++ [x]) := by
+        unfold stateAt
+        rw [← hnow]
+      rw [← this, hkeys]
+    | false =>
+      rw [hrun, (stepEvN_unhandled ttl self _ x hh).1]
+      have hex' : ∃ e ∈ r, e.handled = true ∧ T0 + d + ttl < e.time := by
+        obtain ⟨e, he, heh, het⟩ := hex
+        rcases List.mem_cons.mp he with rfl | he'
+        · rw [hh] at heh; cases heh
+        · exact ⟨e, he', heh, het⟩
+      cases r with
+      | nil => simp at hex'
+      | cons y r' =>
+        rw [List.reverse_cons] at hT hF ⊢
+        have hT' : Timed d startT (r'.reverse ++ y :: [x]) t := by simpa using hT
+        have hF' : Fair P d startT (r'.reverse ++ y :: [x]) t := by simpa using hF
+        have h1 := (timed_prefix r'.reverse y [x] startT t hT').1
+        have h2 := fair_prefix r'.reverse y [x] t hT' hF'
+        have := ih y.time (by rw [List.reverse_cons]; exact h1) (by rw [List.reverse_cons]; exact h2) hex'
+        rw [List.reverse_cons] at this
+        exact this
+
+/-- **callback_view_converges** — the list a registered change callback (the sharder's reload) saw
+last is the live set, under the hypotheses of `converges` **plus**: the node has handled at least
+one message after `T0 + d + ttl`.  The extra hypothesis is essential: `checkHash` runs only in
+`listen`, so an entry that expires is dropped from `GetPeers` at once but is noticed — and the
+callbacks told — only at the next handled message (in a live cluster: the next refresh of any
+node, at most `refresh + jitter + d` later). -/
+theorem callback_view_converges (ttl d G : Int) (P : Pubs) (live : List Node) (self : Node) (startT : Int)
+    (evs : List Ev) (t T0 : Int)
+    (hT : Timed d startT evs t) (hF : Fair P d startT evs t) (hstart : startT ≤ T0)
+    (hlive : ∀ n ∈ live, comma ∉ n.id ∧ PublishesEvery P n T0 G ∧ OnlyOwn P n)
+    (hdead : ∀ k, (∀ n ∈ live, n.id ≠ k) → Silent P k T0)
+    (hnd : (live.map (·.id)).Nodup)
+    (hselfaddr : ∀ n ∈ live, n.id = self.id → self.addr = n.addr)
+    (hside : G + d < ttl) (hd : 0 ≤ d)
+    (hhandled : ∃ e ∈ evs, e.handled = true ∧ T0 + d + ttl < e.time) :
+    (runEvsN ttl self startT evs).view = some (liveList live self) := by
+  -- the stored hash is the live id list's
+  have hk := lastKeys_converged ttl d G P live self startT T0 hstart hlive hdead hnd hside hd
+    evs.reverse t (by simpa using hT) (by simpa using hF)
+    (by obtain ⟨e, he, h⟩ := hhandled; exact ⟨e, by simpa using he, h⟩)
+  rw [List.reverse_reverse] at hk
+  -- the view is GetPeers of a state with that id list and the right addresses
+  have hO : ∀ n ∈ live, OnlyReg n.id n.addr evs := fun n hn => onlyReg_of_onlyOwn hF (hlive n hn).2.2
+  have hJ : ∀ (l : List Ev), (∀ e ∈ l, e ∈ evs) → ∀ (n : NSt),
+      GoodItems live n.st.items → AList.NoDupKeys n.st.items → ViewInv live self n →
+      ViewInv live self (l.foldl (stepEvN ttl self) n) := by
+    intro l
+    induction l with
+    | nil => intro _ n _ _ h; exact h
+    | cons e es ih =>
+      intro hsub n hg hn hv
+      simp only [List.foldl_cons]
+      have hg' : GoodItems live (stepEvN ttl self n e).st.items := by
+        rw [stepEvN_st]
+        apply good_stepEv e _ hg
+        intro m hm sent t' msg c he hu hid
+        exact hO m hm sent t' msg c (he ▸ hsub e List.mem_cons_self) hu hid
+      have hn' : AList.NoDupKeys (stepEvN ttl self n e).st.items := by
+        rw [stepEvN_st]; exact nodup_stepEv e hn
+      exact ih (fun e' he' => hsub e' (List.mem_cons_of_mem _ he')) _ hg' hn' (viewInv_stepEvN e hg' hn' hv)
+  have hstartGood : GoodItems live (startN ttl self startT).st.items := by
+    intro k a e hm n hn hnk
+    simp only [startN, start, AList.put, AList.del, List.filter_nil, List.mem_singleton, Prod.mk.injEq] at hm
+    rw [hm.2.1]
+    exact hselfaddr n hn (by rw [hnk, hm.1])
+  have hstartNd : AList.NoDupKeys (startN ttl self startT).st.items :=
+    AList.nodup_put _ AList.nodup_nil _ _
+  have hv := hJ evs (fun _ h => h) (startN ttl self startT) hstartGood hstartNd (by simp [ViewInv, startN])
+  change ViewInv live self (runEvsN ttl self startT evs) at hv
+  unfold ViewInv at hv
+  rw [hk] at hv
+  cases hview : (runEvsN ttl self startT evs).view with
+  | none => simp [hview] at hv
+  | some v =>
+    simp only [hview] at hv
+    obtain ⟨s0, hg, hn, hks, hvs⟩ := hv
+    rw [hvs, getPeers_of_keys live self s0 hg hn hks.symm]
 
 /-! ## 4. the code's constants -/
 
@@ -423,6 +598,13 @@ example : peersAt 10 n1 0 [.recv 4 4 (regMsg n2), .recv 5 5 (unregMsg n2)] 6 = [
 -- a refreshed entry persists, ids in byte order
 example : peersAt 10 n2 0 [.recv 3 3 (regMsg n1), .recv 3 4 (regMsg n2), .query 9, .recv 9 9 (regMsg n1), .recv 9 10 (regMsg n2)] 19
     = [[120], [121]] := by decide
+-- change notification: n2 registered at 1 and then went silent.  At 20 its entry has expired and a
+-- `GetPeers` call has cleaned it up, but no message has been handled since: the callback's view
+-- still shows n2 …
+example : (runEvsN 10 n1 0 [.recv 1 1 (regMsg n2), .query 20]).view = some [[120], [121]] := by decide
+-- … until the next handled message (here n1's own refresh coming back) runs `checkHash`
+example : (runEvsN 10 n1 0 [.recv 1 1 (regMsg n2), .query 20, .recv 21 21 (regMsg n1)]).view = some [[120]] := by
+  decide
 -- messages that do not unmarshal are ignored
 example : peersAt 10 n1 0 [.recv 1 1 [82, 120]] 5 = [[120]] := by decide
 
